@@ -243,7 +243,16 @@ func gList(a Event, k string) []interface{} {
 			r[i] = float64(v[i])
 		}
 		return r
+	case [][]int:
+		r := make([]interface{}, len(v))
+		for i := range v {
+			r[i] = v[i]
+		}
+		return r
+	case nil:
+		return nil
 	}
+	fatal("argument %q: unexpected list type %T", k, a[k])
 	return nil
 }
 
